@@ -1638,6 +1638,38 @@ fn readable(v: &str) -> String {
     out
 }
 
+/// a shape difference names a command and two descriptor values; the integer literals in them (arity bounds,
+/// thresholds of extra guards) are where a concrete differing frame is to be found: frames of the command with
+/// element counts around every such literal go through the three-way oracle
+fn shape_guided_search(cx: &mut Ctx, name: &str, values: &[&str]) {
+    let top = name.split('.').next().unwrap_or(name);
+    let sub = name.split('.').nth(1);
+    let sh = match shape_of(top) { Some(s) => s, None => return };
+    let mut lens: BTreeSet<usize> = BTreeSet::new();
+    for v in values {
+        let mut cur = String::new();
+        for c in v.chars().chain(std::iter::once(' ')) {
+            if c.is_ascii_digit() { cur.push(c); } else {
+                if let Ok(n) = cur.parse::<usize>() { if n <= 20000 { for d in 0..4usize { lens.insert((n + d).saturating_sub(1)); } } }
+                cur.clear();
+            }
+        }
+    }
+    let tmpl: Vec<char> = sh.tmpl.chars().collect();
+    for total in lens {
+        if total == 0 { continue; }
+        let mut f: Frame = vec![top.as_bytes().to_vec()];
+        if let Some(sw) = sub { f.push(sw.as_bytes().to_vec()); }
+        let mut k = 0usize;
+        while f.len() < total {
+            let c = if tmpl.is_empty() { 'V' } else if k < tmpl.len() { tmpl[k] } else if tmpl.len() == 1 { tmpl[0] } else { tmpl[1 + (k - tmpl.len()) % (tmpl.len() - 1)] };
+            f.push(match c { 'K' => format!("k{}", k).into_bytes(), 'I' | 'U' => b"1".to_vec(), 'F' => b"1.5".to_vec(), _ => format!("v{}", k).into_bytes() });
+            k += 1;
+        }
+        cx.check_frame(&f, "shape-guided");
+    }
+}
+
 /// shape descriptors translated from the match arms of the three grammars, against each other and against
 /// the model's shape table
 fn shape_check(cx: &mut Ctx) {
@@ -1726,6 +1758,23 @@ fn shape_check(cx: &mut Ctx) {
             }
             _ => cx.out.violation(&format!("C16:source:shape:resp:{}:family-row", n), "a sub-command family exists in the source only or in the model only", json!({"family": n, "in_source": fa.contains_key(n), "in_model": mf.contains_key(n)})),
         }
+    }
+    // a shape difference is a pointer to inputs: search them for a concrete differing frame
+    let targets: Vec<(String, Vec<String>)> = cx.out.oracle.iter().filter_map(|v| {
+        let sig = v["signature"].as_str()?;
+        if !(sig.starts_with("C16:source:parsers-shape-differs:") || sig.starts_with("C16:source:shape:")) { return None; }
+        let r = &v["replay"];
+        let name = r["command"].as_str()?.to_string();
+        let mut vals: Vec<String> = ["from_resp", "from_resp_zero_copy", "source", "model"].iter().filter_map(|k| r[*k].as_str().map(|s| s.to_string())).collect();
+        // the conditions of the command's arms carry the thresholds
+        for rows in [&a, &b] {
+            if let Some(c) = rows.get(&name).and_then(|row| row.get("conds")) { vals.push(c.clone()); }
+        }
+        Some((name, vals))
+    }).collect();
+    for (name, vals) in targets {
+        let refs: Vec<&str> = vals.iter().map(|s| s.as_str()).collect();
+        shape_guided_search(cx, &name, &refs);
     }
     cx.out.count_n("shape:fields-compared", compared);
     cx.out.count_n("shape:fields-unrecognised", unrecognised.len() as u64);
